@@ -15,7 +15,7 @@
 (* The clause names say which property a failure belongs to (c01_ / c02_ / *)
 (* c10_); each check reports only its own clauses.                         *)
 (***************************************************************************)
-EXTENDS Grid, KruegerTM, Json, IOUtils
+EXTENDS Grid, KruegerTM, Ellipsoids, Json, IOUtils
 
 Data   == JsonDeserialize(IOEnv.TRACE_FILE)
 Traces == Data.traces
@@ -144,6 +144,7 @@ TMChecks(o) ==
               convExp == MulSmall(Deg(ConvMagnitude(o.tdl, t)), sgn)
               lonExp == Add(FromInt(CMdeg(prj, o.fwd.zone)), IF o.tdl[1] < 0 THEN Neg(londeg) ELSE londeg)
           IN << <<"oracle_residuals", ResidualsOK(t.res)>>,
+                <<"c01_shipped_ellipsoid_constants", ConstantsOK(o.ell.name, FromJ(o.ell.a), FromJ(o.ell.invf))>>,
                 <<"c01_tm_easting", Within(E(o), Add(prj.fe, Mul(prj.k0, Mul(AA, t.eta))), Mm02)>>,
                 <<"c01_tm_northing", Within(N(o), Add(FNeff(prj, o.fwd.hemi), Mul(prj.k0, Mul(AA, t.xi))), Mm02)>>,
                 <<"c10_tm_scale_factor", Within(FromJ(o.fwd.psf), Mul(prj.k0, ScaleOverK0(FromJ(o.ell.a), n, o.tri, t)), Add(Psf2e8, Half8))>>,
